@@ -39,9 +39,11 @@ TRead == /\ Ev.op = "read" /\ done' = TRUE
          /\ LET exp == R!Read(Ev.text, Ev.opts)
                 junk == R!JunkAt(Ev.text)
             IN IF Ev.exc # ""
-               THEN /\ Chk(C("NoExceptionWithFlag"), ~Ev.opts.ihe /\ junk # {})        \* a read of a legal text only fails on junk without the flag
-                    /\ Chk(C("OnlyLASHeaderError"), Ev.exc = "LASHeaderError")
-                    /\ Chk(C("ErrorNamesTheLine"), Ev.excline \in junk)
+               THEN IF junk = {}
+                    THEN Chk(C("NoException"), FALSE)                                  \* a legal text without junk must be readable
+                    ELSE /\ Chk(C("NoExceptionWithFlag"), ~Ev.opts.ihe)                \* junk may only raise without the flag,
+                         /\ Chk(C("OnlyLASHeaderError"), Ev.exc = "LASHeaderError")    \* only as LASHeaderError,
+                         /\ Chk(C("ErrorNamesTheLine"), Ev.excline \in junk)          \* naming a junk line
                ELSE /\ ResultOK(Ev.res, exp, Ev.text)
                     /\ (Ev.engines = 2 =>
                           /\ ResultOK(Ev.res2, exp, Ev.text)
